@@ -7,11 +7,11 @@ namespace Qryn.LogQL
 open Qryn Qryn.Sql
 
 /-- the queries the plan-level theorem covers: the range aggregation is rate / count_over_time / bytes_rate /
-    bytes_over_time (no unwrap), its range a positive whole number of milliseconds, at most 63 stream matchers; any vector
+    bytes_over_time (no unwrap), its range positive (any unit down to nanoseconds), at most 63 stream matchers; any vector
     aggregation (sum / min / max / avg / count / stddev / stdvar, with or without grouping clause) -/
 def supported (q : MetricQuery) : Bool :=
   (match q.rangeAgg.kind with | .lra _ => true | .unwrap _ _ => false) &&
-  decide (q.rangeAgg.durNs % 1000000 = 0) && decide (0 < q.rangeAgg.durNs) && decide (q.rangeAgg.sel.matchers.length ≤ 63)
+  decide (0 < q.rangeAgg.durNs) && decide (q.rangeAgg.sel.matchers.length ≤ 63)
 
 /-- the unwrapped range aggregations the plan-level theorem `plan_metric_correct_unwrap` covers: rate / sum / avg / min /
     max / first / last_over_time over `| unwrap <label>` (with or without grouping clause), same side conditions -/
@@ -19,7 +19,7 @@ def supportedU (q : MetricQuery) : Bool :=
   (match q.rangeAgg.kind with
    | .unwrap _ _ => true
    | .lra _ => false) &&
-  decide (q.rangeAgg.durNs % 1000000 = 0) && decide (0 < q.rangeAgg.durNs) && decide (q.rangeAgg.sel.matchers.length ≤ 63)
+  decide (0 < q.rangeAgg.durNs) && decide (q.rangeAgg.sel.matchers.length ≤ 63)
 
 /-- the database with the `samples` table read in timestamp order (ascending when the request is forward): the plan of
     an unwrapped range aggregation orders `main` by timestamp before it joins the labels and groups -/
